@@ -36,7 +36,8 @@ PLANS['C01'] = {
     'rule': ('seeded random DOMs (shape, classes known/unknown, database-driven and unknown properties, all binary value types '
              'with boundary pools, abstract refs) x random root antichain x {lz4,none,zstd}; each is written by rbx_binary, read back, '
              'and compared with an expected dump derived from the abstract spec and the property statement; the same bytes are also decoded through a reader that is not a slice (a few bytes per call / a small BufReader / '
-             'two halves chained) and must give the same DOM; one case in four also compares the other public entry points (to_writer, Deserializer::new().deserialize, from_str, *_default) with the ones they abbreviate; one tree in four contains 2-4 instances of one class sharing a Content-object / Ref / SharedString column; '
+             'two halves chained) and must give the same DOM; one case in four also compares the other public entry points (to_writer, Deserializer::new().deserialize, from_str, *_default) with the ones they abbreviate; one tree in four contains 2-4 instances of one class sharing a Content-object / Ref / SharedString column; one case in fifty is a SCALE tree '
+             '(63-2049, rarely 16384-17000, siblings or instances of one class; chains 300 deep; hundreds of distinct SharedStrings / classes / properties; values past 64 KiB, rarely 5 MiB); '
              'non-trivial = >=2 written instances and >=1 property; distinct = digest of the expected dump'),
     'floor': {'quick': 3000, 'thorough': 100000},
     'assumptions': ['generator reach (see coverage.observed)', 'oracle in harness/src/expect.rs + dbwalk.rs (independent walk of rbx_reflection types)',
@@ -224,7 +225,7 @@ def _domops(pid):
 _DOM_RULE = ('histories of insert / destroy / transfer_within / transfer / clone_within / clone_into_external / clone_multiple_into_external over 1-3 real WeakDoms, '
              'arguments drawn within the documented preconditions (moving an instance under its own descendant is excluded: no tree can represent it; the list given to clone_multiple_into_external may repeat an '
              'instance or name an instance together with a descendant - nothing documented forbids it - and then any of the copies counts as the corresponding copy of a Ref target); '
-             'nodes carry 0-2 outward Ref properties, a self Ref, dangling Refs, pooled UniqueIds; one inserted builder in six is created on a freshly started thread, through any of the public constructors (new / with_property_capacity / empty + with_class / set_class); now and then a DOM goes through '
+             'nodes carry 0-2 outward Ref properties, a self Ref, dangling Refs, pooled UniqueIds; one inserted builder in six is created on a freshly started thread, through any of the public constructors (new / with_property_capacity / empty + with_class / set_class); one history in forty opens with a size scenario (two folders of 65-130 children joined by 65-130 distinct Refs, cloned within and across DOMs; or 460 id-carrying children, a parentless clone and a mass destroy); now and then a DOM goes through '
              'into_raw + from_raw + reserve (nothing observable may change; the rebuilt id bookkeeping is checked through the hook); '
              'random histories of 20-400 operations (few live nodes, many operations) plus the exhaustive enumeration of every history in the small scopes '
              'listed under exhaustive_scopes (all valid argument choices at every step); after EVERY step each DOM is walked through the public API and compared '
